@@ -58,7 +58,10 @@ import (
 // WithCompression() in esgzOpts will be ignored but used the one for external TOC instead.
 func LayerConvertFunc(esgzOpts []estargz.Option, compressionLevel int) (convertFunc converter.ConvertFunc, finalize func(ctx context.Context, cs content.Store, ref string, desc *ocispec.Descriptor) (*images.Image, error)) {
 	return layerConvert(func(c estargz.Compression) converter.ConvertFunc {
-		return estargzconvert.LayerConvertFunc(append(esgzOpts, estargz.WithCompression(c))...)
+		// called once per layer, concurrently: never append to the caller's slice in place
+		opts := make([]estargz.Option, 0, len(esgzOpts)+1)
+		opts = append(opts, esgzOpts...)
+		return estargzconvert.LayerConvertFunc(append(opts, estargz.WithCompression(c))...)
 	}, compressionLevel)
 }
 
